@@ -159,7 +159,7 @@ func runC19(c *eng.Ctx, thorough bool) {
 					}
 					switch x := v.(type) {
 					case *ssa.Alloc:
-						if x.Comment == "te" {
+						if eng.VarName(x) == "te" {
 							te = x
 						}
 					case ssa.Instruction:
